@@ -1048,6 +1048,29 @@ pub mod gff {
                 ensure!(got.attributes().get(k.as_str()) == vs.first(), "GFF record {:?}: attributes().get({:?}) = {:?}", exp, k, got.attributes().get(k.as_str()));
             }
         }
+        // a record that came out of the reader is an ordinary record: changed through its setters and written
+        // again (same dialect), it reads back with the changes
+        if let Some(Ok(first)) = items.first() {
+            let mut m = first.clone();
+            m.attributes_mut().insert("zz_added".to_string(), "v1".to_string());
+            m.attributes_mut().insert("zz_added".to_string(), "v2".to_string());
+            *m.start_mut() = first.start().wrapping_add(1);
+            *m.source_mut() = "edited".to_string();
+            let mut buf = Vec::new();
+            {
+                let mut w = lib::Writer::new(&mut buf, c.dialect.lib());
+                if let Err(e) = w.write(&m) {
+                    fail!("{:?} writer refused a record obtained from the reader and edited through its setters: {}", c.dialect, e);
+                }
+            }
+            let again = read(c.dialect, &buf)?;
+            ensure!(again.len() == 1 && again[0].is_ok(), "{:?}: a record read from {:?}, edited and written again as {:?} reads back as {} items", c.dialect, lossy(&file), lossy(&buf), again.len());
+            let back = again[0].as_ref().unwrap();
+            let mut want = attrs_of(first);
+            want.push(("zz_added".to_string(), vec!["v1".to_string(), "v2".to_string()]));
+            want.sort();
+            ensure!(attrs_of(back) == want && *back.start() == *m.start() && back.source() == "edited", "{:?}: a record read from {:?}, then given the attribute zz_added=[v1,v2], start+1 and source \"edited\", was written as {:?} and reads back with attributes {:?} start {} source {:?}; expected attributes {:?}", c.dialect, lossy(&file), lossy(&buf), attrs_of(back), back.start(), back.source(), want);
+        }
         let multi = c.recs.iter().any(|r| r.attrs.iter().any(|(_, v)| v.len() >= 2));
         let mut p = Pass::new(multi);
         p.add(match c.dialect {
